@@ -2,14 +2,15 @@
 Runs the real Atoms.__delitem__ / _delete_and_reindex_atom_index_array / pop on directly constructed states whose
 term end points, type ids, per-atom data and deleted indices (in arbitrary listing order) are symbolic."""
 from harness.common import *
+from symnp import core
 
 PROPERTY = 'C10'
 LEVEL = 'model_checking'
 FUNCTIONS = ['mofun.atoms.Atoms.__delitem__', 'mofun.atoms.Atoms._delete_and_reindex_atom_index_array',
              'mofun.atoms.Atoms.pop', 'mofun.atoms.Atoms.assert_arrays_are_consistent_sizes']
 BOUNDS = {'quick': 'N<=4 atoms, <=2 terms of one kind or 1+1 of two kinds, |D|<=3 deleted indices in any '
-                   'listing order, <=2 extra columns; all end points / types / per-atom data / deleted indices symbolic',
-          'thorough': 'N<=5 atoms, <=3 terms of one kind or up to three kinds at once, |D|<=3; otherwise as quick'}
+                   'listing order, <=2 extra columns; large sparsely bonded structures (60-400 atoms, 4-20 scattered/tail deletions, one symbolic term end point); all end points / types / per-atom data / deleted indices symbolic',
+          'thorough': 'large sparsely bonded structures (60-400 atoms, 4-20 scattered/tail deletions, one symbolic term end point); N<=5 atoms, <=3 terms of one kind or up to three kinds at once, |D|<=3; otherwise as quick'}
 OUTSIDE = ['more atoms/terms than the bound', 'duplicate indices in the deletion list (property: distinct indices)',
            'boolean-mask or slice deletion']
 ASSUMPTIONS = ['deleted indices pairwise distinct and in [0,N)', 'term end points in [0,N) (not necessarily distinct)',
@@ -36,6 +37,11 @@ def instances(tier, seed):
     out.append(dict(name="del:noterms:N3:K2", family='delete', N=3, terms={}, K=2, cost=1))
     out.append(dict(name="pop:N3:bond1+angle1", family='pop', N=3, terms={'bond': 1, 'angle': 1}, pop=True, cost=6))
     out.append(dict(name="pop-default:N3:bond1", family='pop', N=3, terms={'bond': 1}, pop=True, default=True, cost=1))
+    # large sparsely bonded structures, many scattered deletions (integer-array paths inside numpy's set routines)
+    out.append(dict(name="large:N130:del15:scattered", family='large', N=130, dels=list(range(0, 130, 9)), alo=40, ahi=60, chain=[51, 52, 53, 55, 56], cost=20))
+    out.append(dict(name="large:N400:del20:scattered:shuffled", family='large', N=400, dels=list(range(0, 400, 20)), alo=195, ahi=215, chain=[201, 202, 203, 204, 205],
+                    listing='shuffled', cost=30))
+    out.append(dict(name="large:N60:del-tail", family='large', N=60, dels=[3, 57, 58, 59], alo=0, ahi=59, chain=[20, 21, 22, 23], cost=30))
     if big:
         out.append(dict(name="del:angle2:N4:K2", family='delete', N=4, terms={'angle': 2}, K=2, cost=250))
         out.append(dict(name="del:bond2:N5:K3", family='delete', N=5, terms={'bond': 2}, K=3, cost=330))
@@ -51,7 +57,62 @@ def instances(tier, seed):
     return out
 
 
+def large_body(ctx, p):
+    """a large, sparsely bonded structure from which many scattered atoms are deleted: the integer-array code paths of the
+    membership / re-indexing steps (which differ from the small-array ones inside numpy) with one symbolic term end point"""
+    import numpy as rnp
+    N, dels = p['N'], list(p['dels'])
+    Atoms = ctx.ms.Atoms
+    a0 = ctx.int('a', p['alo'], p['ahi'])
+    core_atoms = p['chain']            # concrete atoms none of which is deleted; several terms share them
+    ctx.assume(AND(*[a0 != c for c in core_atoms]))
+    terms = {'bond': [[a0, core_atoms[0]]] + [[core_atoms[i], core_atoms[i + 1]] for i in range(len(core_atoms) - 1)],
+             'angle': [[a0, core_atoms[0], core_atoms[1]]] + [[core_atoms[i], core_atoms[i + 1], core_atoms[i + 2]] for i in range(len(core_atoms) - 2)],
+             'dihedral': [[a0, core_atoms[0], core_atoms[1], core_atoms[2]], [core_atoms[0], core_atoms[1], core_atoms[2], core_atoms[3]]],
+             'improper': [[core_atoms[1], core_atoms[0], core_atoms[2], a0]]}
+    types = {k: list(range(len(v))) for k, v in terms.items()}
+    kw = {}
+    for k, v in terms.items():
+        kw[k + 's'] = ctx.arr(v)
+        kw[k + '_types'] = types[k]
+        kw[k + '_type_coeffs'] = [f"c{k}{i} 1.0" for i in range(len(v))]
+    a = Atoms(elements=['C' if i % 3 else 'N' for i in range(N)], positions=[[float(i), 0.5 * i, 1.0] for i in range(N)],
+              charges=[0.01 * i for i in range(N)], groups=[i // 7 for i in range(N)], **kw)
+    if p.get('listing') == 'shuffled':
+        dd = dels[::2] + dels[1::2][::-1]
+    else:
+        dd = dels
+    del a[list(dd)]
+    keep = [i for i in range(N) if i not in dels]
+    ok = (len(a) == N - len(dels) and lengths_consistent(a)
+          and all(abs(float(a.positions[r][0]) - float(i)) < 1e-12 and abs(float(a.charges[r]) - 0.01 * i) < 1e-12 and int(a.groups[r]) == i // 7
+                  for r, i in enumerate(keep)))
+    ctx.require('surviving atoms keep data and order', ok)
+    ctx.observe('n_atoms', len(a))
+    with core.nosimplify():
+        isdel = lambda x: OR(*[EQ(x, d) for d in dels]) if isinstance(x, Sym) else (int(x) in dels)
+        newidx = lambda x: x - COUNT([d < x for d in dels]) if isinstance(x, Sym) else int(x) - sum(1 for d in dels if d < int(x))
+        for kind, tl in terms.items():
+            rows = getattr(a, kind + 's')
+            tys = getattr(a, kind + '_types')
+            first_gone = isdel(a0)
+            want_n = ITE(first_gone, len(tl) - 1, len(tl))
+            ctx.observe('n_' + kind, len(rows))
+            ctx.require(f'{kind} survives iff untouched (count)', AND(EQ(len(rows), want_n), len(tys) == len(rows)), detail=dict(kind=kind, n=len(rows)))
+            for off, want_first in ((0, False), (1, True)):
+                # rows expected when the first term (the one with the symbolic end) is kept / removed
+                exp = tl[off:]
+                if len(rows) != len(exp):
+                    continue
+                same = AND(*[EQ(rows[r][c], newidx(exp[r][c])) for r in range(len(exp)) for c in range(len(exp[r]))],
+                           *[EQ(int(tys[r]), types[kind][r + off]) for r in range(len(exp))])
+                ctx.require(f'surviving {kind} connects the same atoms with the same type', IMPLIES(first_gone if want_first else NOT(first_gone), same),
+                            detail=dict(kind=kind, rows=[[str(x) for x in r_] for r_ in rows][:4]))
+
+
 def body(ctx, p):
+    if p.get('family') == 'large':
+        return large_body(ctx, p)
     N = p['N']
     a, sp = build_state(ctx, 's', N, terms=p.get('terms'), coeff_rows={k: 3 for k in p.get('terms', {})},
                         atom_rows=3, extra=p.get('extra'))
